@@ -44,7 +44,7 @@ var c06Alphabet = []gramTok{
 	gp("{"), gp("}"), gp("("), gp(")"), gp("["), gp("]"), gp(":"), gp("="), gp("!"), gp("@"), gp("|"), gp("&"), gp("$"),
 	gn("a"), {"1", ref.GTok{Kind: ref.KInt}}, gstr("s"), {`"""b"""`, ref.GTok{Kind: ref.KBlock}},
 	gn("schema"), gn("scalar"), gn("type"), gn("interface"), gn("union"), gn("enum"), gn("input"), gn("directive"), gn("extend"),
-	gn("implements"), gn("on"), gn("repeatable"), gn("query"), gn("FIELD"), gn("OBJECT"), gn("true"),
+	gn("implements"), gn("on"), gn("ON"), gn("repeatable"), gn("query"), gn("FIELD"), gn("OBJECT"), gn("true"),
 	gstr("on"), gstr("implements"), gstr("schema"), gstr("query"), gstr("repeatable"), gstr("extend"),
 }
 
